@@ -262,6 +262,38 @@ def collect(ctx, pid):
     return out
 
 
+def corpus_distribution(ctx):
+    """what the generator produced on this run: families, expectations, and how the valid declarations were written"""
+    import collections
+    fam = collections.Counter(d['family'] for d in ctx.ds)
+    exp = collections.Counter(d.get('expect') for d in ctx.ds)
+    bases = collections.Counter(d['base'] for d in ctx.ds if d['kind'] == 'bitfield' and isinstance(d.get('base'), int))
+    w = collections.Counter()
+    kinds = collections.Counter()
+    nf = 0
+    for d in ctx.ds:
+        if d['kind'] == 'enum':
+            w['enum: arguments reversed'] += bool(d.get('args_rev'))
+            w['enum: discriminant spelled in hex/bin/oct/underscores'] += sum(1 for v in d['variants'] if v.get('discr_text'))
+            continue
+        w['bitfield: debug before default'] += bool(d.get('args_rev'))
+        w['bitfield: trailing comma in bitfield(..)'] += bool(d.get('args_trailing_comma'))
+        w['bitfield: default literal not plain decimal'] += bool((d.get('default') or {}).get('text') not in (None, str((d.get('default') or {}).get('value'))))
+        for f in d.get('fields', []):
+            nf += 1
+            kinds[f['ty'].get('k')] += 1
+            w['field: arguments permuted'] += bool(f.get('order') and f['order'] != sorted(f['order']))
+            w['field: stride: instead of stride ='] += bool(f.get('stride_sep'))
+            w['field: trailing comma'] += bool(f.get('trailing_comma'))
+            w['field: path-qualified type'] += bool(f['ty'].get('path') or f['ty'].get('opt_path'))
+            w['field: array'] += f.get('count') is not None
+            w['field: range list'] += bool(f.get('list'))
+            w['field: documented'] += bool(f.get('doc'))
+    return {'families': dict(sorted(fam.items())), 'expectation': {str(k): v for k, v in exp.items()}, 'fields': nf,
+            'field_type_kinds': dict(kinds), 'distinct_base_widths': len(bases), 'written_as': dict(w),
+            'source_constants': ctx.ws.load('corpus').get('source_constants') if ctx.ws.done('corpus') else None}
+
+
 def evidence_path(pid):
     """evidence/<id>.json describes runs against /repo; runs against a scratch tree (VERIF_REPO) must not overwrite it"""
     if os.path.realpath(P.REPO) == '/repo':
@@ -551,7 +583,7 @@ def check_property_(pid, tier, seed):
                     'base width, field type, ranges, count, stride); all are non-trivial (symbolic inputs)',
             'samples': samples,
             'corpus': {'declarations': len(ctx.ds), 'accepted': len(ctx.verdicts['accepted']),
-                       'rejected': len(ctx.verdicts['rejected'])},
+                       'rejected': len(ctx.verdicts['rejected']), 'distribution': corpus_distribution(ctx)},
             'behavioural_tie': {k: ctx.beh[k] for k in ('programs', 'scenarios', 'ops', 'stats', 'distinct', 'n_mismatches')},
             'enum_behavioural_tie': {k: ctx.beh['enum'].get(k) for k in ('enums', 'conversions', 'stats', 'n_mismatches')},
             'facts_and_debug_text_tie': {k: ctx.beh['facts'].get(k) for k in ('programs', 'debug_programs', 'debug_texts', 'n_mismatches')},
